@@ -363,3 +363,19 @@ theorem run_nonpending_stable (ord : List Group → List Group) (steps : List St
       rw [e2, i2]; rfl
 
 end Sif.EthBridge
+
+namespace Sif.EthBridge
+open Sif.Oracle Sif.Bank Sif.Spec.C05 Sif.Spec.C06
+
+/-- a content with positive support is the recorded claim of some validator -/
+theorem support_pos_mem (vals : List Validator) (wl : List Nat) (vc : List (Nat × Content)) (c : Content)
+    (h : 0 < support vals wl vc c) : c ∈ vc.map (·.2) := by
+  unfold support at h
+  have hne : vals.filter (fun v => v.bonded && inWhiteList wl v.id && (vc.lookup v.id == some c)) ≠ [] := by
+    intro e; rw [e] at h; simp at h
+  obtain ⟨v, hv⟩ := List.exists_mem_of_ne_nil _ hne
+  have hv' := (List.mem_filter.mp hv).2
+  simp only [Bool.and_eq_true, beq_iff_eq] at hv'
+  exact List.mem_map_of_mem (f := (·.2)) (lookup_some_mem _ _ _ hv'.2)
+
+end Sif.EthBridge
